@@ -1,8 +1,11 @@
 ---------------------------- MODULE Gen_Traverse ----------------------------
 EXTENDS SwcBase, SequencesExt, Json, IOUtils
-CONSTANT MaxN
+CONSTANTS MaxN, MaxNHist
 All == UNION { { [P |-> P, start |-> s, mode |-> m] : s \in Nodes(P), m \in {"enter", "leave", "both"} } : P \in UNION { Topos(n) : n \in 1 .. MaxN } }
-AllSeq   == SetToSeq(All)
+\* histories: traverse the tree with topology pre (every mode), re-parent node ed[1] to ed[2] in place, then record the traversal of P
+Hist == UNION { UNION { { [P |-> Reparent(P0, e[1], e[2]), pre |-> P0, ed |-> e, start |-> s, mode |-> m] : s \in Nodes(P0), m \in {"enter", "leave", "both"} }
+                        : e \in Edits(P0) } : P0 \in UNION { Topos(n) : n \in 2 .. MaxNHist } }
+AllSeq   == SetToSeq(All \cup Hist)
 Numbered == [k \in 1 .. Len(AllSeq) |-> [cid |-> k] @@ AllSeq[k]]
 VARIABLE done
 Init == done = ndJsonSerialize(IOEnv.OUT, Numbered)
